@@ -22,6 +22,7 @@ type ReplaySpec struct {
 	PkgDir   string `json:"pkgdir"`   // package directory (relative to repo) the test is injected into
 	Run      string `json:"run"`      // -run pattern
 	Ext      bool   `json:"external"` // test lives in package <name>_test
+	Known    bool   `json:"known"`    // demonstrates a recorded open finding: fails on the current tree by design, not part of the smoke run
 }
 
 type BoundedSpec struct {
@@ -528,7 +529,7 @@ func runProp(prop string) int {
 	if needSmoke || *flagTier == "thorough" {
 		done := map[string]bool{}
 		for _, rs := range cfg.Replays {
-			if done[rs.Template] {
+			if done[rs.Template] || rs.Known {
 				continue
 			}
 			done[rs.Template] = true
